@@ -49,6 +49,18 @@ CHECKS = {
         "All 1,024 predicates defined by boundaries at 0, around the surrogate gap and at char::MAX, the 20 real predicates and random ones; output must be the unique maximal sorted range list with scalar end points.",
         "Trusted: proptest, Rust char predicates, unicode-xid; the generator source is include!d unchanged (minus its inner attribute).",
         "DESIGN.md section 4, C18"),
+    "C12": ("proptest-generated definitions of every profile plus scaling families and multi-lexer modules, expanded in-process (repository's own pipeline) under a watchdog, three expansions compared; a sample compiled by rustc",
+        "Every generated definition must expand within 20 s (confirmed alone with 40 s), without panic, and identically twice in one process and once in another; a sample and every module with several lexers must compile. Non-termination is a budget overrun (4 orders of magnitude slack).",
+        "Trusted: proptest, rustc; the in-process harness is lexgen's source with three entry-point lines adapted. Known finding F8 (exponential inlining of mixed char+range class chains) is excluded by a generator cap and re-measured every run.",
+        "DESIGN.md section 4, C12"),
+    "C16": ("proptest-generated regex trees printed with minimal / redundant parentheses and factored into lets, round-tripped through the repository's parser in-process (structural equality); generated scoping accept/reject definitions; end-to-end differential sample through rustc",
+        "Round trip printer -> lexgen parser on tens of thousands of trees per run; scoping decided by expansion acceptance; behaviour of minimally printed / let-factored definitions compared with the reference.",
+        "Trusted: proptest, the printer's reading of the documented grammar (# tighter than postfix), the reference model for the end-to-end part.",
+        "DESIGN.md section 4, C16"),
+    "C17": ("mutation-based generation: a generated well-formed definition plus exactly one static-rule violation at a random position; oracle = in-process expansion must reject, a sample must fail to compile with rustc",
+        "16 violation families at random positions of random definitions; any that yields lexer code is a violation. Lazy validation inside unreferenced lets is a known finding keyed on (kind, location).",
+        "Trusted: proptest, rustc. Macro panics and compile_error! both count as rejection.",
+        "DESIGN.md section 4, C17"),
     "C14": ("proptest-generated definitions/inputs/scripts; metamorphic: the same case through all four constructors and three iterator types must give pairwise identical traces",
         "Pairwise equality of the six constructor variants' traces (tokens, full Locs, errors, action logs without match_()); no reference lexer involved.",
         "Trusted: rustc/cargo, proptest; the user state's Default impl hands the same state to `new`/`new_from_iter`.",
